@@ -145,7 +145,11 @@ def expand_eq(t):
 
 
 def fam_predicate(res, s, v, spec, what, n=None, expand=False):
-    t = bool_of_stmts(v.body())
+    def comp_of_index(x):
+        if x[0] == 'idx' and x[1][0] == 'm' and x[1][2] in (LO, HI) and x[2][0] == 'lit' and x[2][1].denominator == 1 and 0 <= x[2][1] < 4:
+            return M(x[1], COMPS[int(x[2][1])])
+        return x
+    t = bool_of_stmts([map_terms(st, comp_of_index) for st in unroll(list(v.body()))])
     if t is None:
         res.und(R1, '%s: body is not a Boolean expression / if-return chain' % what)
         return
@@ -227,10 +231,30 @@ def fam_predicate(res, s, v, spec, what, n=None, expand=False):
                     map_terms(all_conv(o), lambda y: (arith.append(y), y)[1] if (y[0] == 'b' and y[1] in ('+', '-', '*')) or (
                         y[0] == 'mcall' and y[1] == 'size') else y)
                     if arith and not ((is_difference(o) and any(is_zero(q) for q in ops_))):
-                        arithmetic.append(show(x, s.names))
+                        oo = all_conv(o)
+                        if oo[0] == 'b' and oo[1] in ('+', '-') and (bound_like(oo[2]) != bound_like(oo[3])):
+                            tolerance.append(show(x, s.names))
+                        else:
+                            arithmetic.append(show(x, s.names))
         return x
-    arithmetic = []
+    arithmetic, tolerance = [], []
+
+    def bound_like(y):
+        y = all_conv(y)
+        while y[0] == 'm' and y[2] in COMPS:
+            y = y[1]
+        return (y[0] == 'm' and y[2] in (LO, HI)) or y[0] == 'p'
     map_terms(t, scan_rounded)
+    if tolerance and not rounded:
+        src_ = v.f.get('rect') or next((p_['ct'] for p_ in v.f['params'] if rangearg(p_['ct']) is not None), None)
+        if not v.f['dep'] and src_ and elem_of(src_) in INT_BITS:
+            res.und(R1, '%s on integer element type %s compares against a bound shifted by `%s`; whether the shift is zero for integers is '
+                        'not decided here (the floating-point instances are)' % (what, elem_of(src_), tolerance[0][:80]))
+            return
+        res.bad(R1, '%s compares against a bound shifted by a tolerance (`%s`): boxes separated by a gap no larger than the tolerance are '
+                    'reported as touching although they share no point (closed-set semantics: touching means equal faces), and the '
+                    'answer disagrees with disjoint() / intersectionOf()' % (what, tolerance[0][:140]), 'tolerance-operand')
+        return
     if arithmetic and not rounded:
         res.bad(R1, '%s decides on sums / differences of the bounds (`%s`) instead of comparing the bounds themselves: comparing '
                     'differences is equivalent to comparing the bounds only for a non-empty range and exact arithmetic - for an empty '
@@ -1306,6 +1330,12 @@ def fam_raybox(res, s, v, tu=None):
     bad = False
     for side, nm, red, mm, bound in ((t[2][0], 'entry', 'reduce_max', 'min', LO), (t[2][1], 'exit', 'reduce_min', 'max', HI)):
         x = widen_reduce(strip_casts(side, pred=lambda ty: not ty.startswith('vec_t<')), v)
+        if x[0] == '?:' and (x[2] in (M(tr, LO), M(tr, HI)) or x[3] in (M(tr, LO), M(tr, HI))):
+            res.bad(R5, 'intersectRayBox: the %s parameter is `%s`: on one branch it is the bare tRange bound, without the reduction over '
+                        'the slab planes - e.g. for an origin inside the box and a tRange that starts before the entry planes the '
+                        'returned interval contains parameters whose points lie outside the box' % (nm, show(x, names)[:150]), 'slab-' + nm)
+            bad = True
+            continue
         if x[0] == 'mcall' and x[1] == 'clamp' and x[2] == tr and len(x[3]) == 1:
             res.bad(R5, 'intersectRayBox: the %s parameter is `%s`: the slab value is clamped into tRange instead of being joined with '
                         'tRange.%s only - an entry beyond tRange.upper is pulled back to tRange.upper (an exit before tRange.lower up to '
